@@ -39,6 +39,14 @@ func (c Case) faultAt(seq int) FaultAt {
 // reply is the (pure) response of the target to the seq-th request it receives.
 func (c Case) reply(def *si.Request, seq int) si.Reply {
 	f := c.faultAt(seq)
+	if f.Kind == si.FaultClose && c.KeepAlive && seq != 0 && resentByTransport(def) {
+		// World rule: where connections are kept alive the target drops one without answering only for requests that
+		// net/http's Transport does not re-send by itself (the first request of the run: fresh connection; POST, PUT,
+		// DELETE: not replayable). A replayable request on a reused connection would be sent again below the gun, which
+		// the property says nothing about. (The generator places faults by the fault-free plan; which request really
+		// arrives seq-th depends on the earlier faults and the order of the scenarios, hence the rule is applied here.)
+		f = FaultAt{N: -1}
+	}
 	return si.MakeReply(def, fmt.Sprintf("%dq%s", seq, c.Salt), seq, f.Kind, f.Status)
 }
 
@@ -251,6 +259,7 @@ func checkSeq(c Case, o *vf.Obs) error {
 	ri, sx := 0, 0
 	counts := map[string]int{}
 	lastAt := res.T0 // no request of the current invocation was sent before this instant
+	lastWhole := false // the previous request at the target was answered completely (its connection went back to the idle pool)
 	type bound struct {
 		from time.Time
 		ms   int
@@ -357,6 +366,10 @@ func checkSeq(c Case, o *vf.Obs) error {
 				st.head["step_after_head_step_body_read_content_length_announced"] = true
 			}
 			lastAt = rec.At
+			// the request went over a connection taken from the idle pool: connections are kept alive and the previous
+			// exchange of the (only) instance ended with a complete answer
+			reused := c.KeepAlive && ri > 0 && lastWhole
+			lastWhole = !rep.Closed && !rep.Cut
 			ri++
 			out := in.Deliver(rep)
 			if !rep.Closed && !rep.Cut {
@@ -427,6 +440,19 @@ func checkSeq(c Case, o *vf.Obs) error {
 					}
 					if pos != "last" {
 						st.fails["transport_before_last_step"] = true
+					}
+					if rep.Closed && reused {
+						// (net/http does not re-send the request by itself: the generator keeps connections alive under
+						// such faults for POST / PUT / DELETE only)
+						st.fails["transport_close_on_reused_connection"] = true
+						if s.Index == 0 {
+							st.fails["transport_close_on_reused_connection_first_step_of_later_shot"] = true
+						} else {
+							st.fails["transport_close_on_reused_connection_later_step"] = true
+						}
+						if pos != "last" {
+							st.fails["transport_close_on_reused_connection_before_last_step"] = true
+						}
 					}
 				}
 				st.failPos[pos] = true
